@@ -193,6 +193,7 @@ class Ob:
         self.deadline = None
         self.max_paths = 3000 if tier == "quick" else 30000
         self._profiled = False
+        self._twins = {}
 
     # ---- exploration -------------------------------------------------------------------
     def paths(self, pre, body, catch=(Exception,), profile=True):
@@ -257,10 +258,8 @@ class Ob:
                 self.r.queries += 1
                 self.r.proved += 1
                 return "proved"
-            neg = True
         else:
-            neg = z3.Not(claim)
-        cons.append(neg)
+            cons.append(z3.Not(claim))
         st, m, dt = check(cons, self.query_timeout_ms)
         self.r.solver_s += dt
         self.r.queries += 1
@@ -312,18 +311,33 @@ class Ob:
         self.r.unreproduced.append({"label": label, "tried": tried, "why": "candidate did not reproduce on the real code"})
 
     def expect_sat(self, pre, path, false_claim, label):
-        """vacuity twin: a deliberately false claim must come back sat"""
+        """vacuity twin: a deliberately false claim must come back sat (on at least one path of the obligation)"""
         cons = list(pre) + (path.constraints() if path is not None else []) + list(S.side)
         cons.append(z3.Not(false_claim) if not core.isc(false_claim) else (not false_claim))
         st, m, dt = check(cons, self.query_timeout_ms)
         self.r.solver_s += dt
         self.r.queries += 1
+        self._twins.setdefault(label, []).append(st)
         if st == "sat":
             self.r.vacuity_ok += 1
-        elif st == "unsat":
-            self.r.vacuity_fail.append(label)
-        else:
-            self.r.inconclusive.append(f"vacuity twin unknown: {label}")
+
+    def finish(self):
+        for label, rs in self._twins.items():
+            if "sat" in rs:
+                continue
+            if "unknown" in rs:
+                self.r.inconclusive.append(f"vacuity twin unknown: {label}")
+            else:
+                self.r.vacuity_fail.append(label)
+
+    def unexpected(self, pre, path, label, inputs=None, replay=None):
+        """the code under test raised on this path although the property promises a value: a violation if the path is
+        reachable and the real code raises too (replay); shim limitations (Unsupported) are harness errors."""
+        exc = path.exc
+        if isinstance(exc, core.Unsupported) or isinstance(exc, (AssertionError, NotImplementedError)):
+            self.error(f"{label}: {type(exc).__name__}: {exc}")
+            return
+        self.prove(pre, path, False, f"{label} raised {type(exc).__name__}: {str(exc)[:120]}", inputs, replay)
 
     def error(self, msg):
         self.r.errors.append(msg)
